@@ -474,14 +474,28 @@ func c05Fixpoint(p *Prog, rp *Report) {
 			problems = append(problems, fmt.Sprintf("rendering the value parsed from %q changes it: %s became %s", f, a, after))
 			continue
 		}
-		st2, d2, err := parseStr(rendered)
-		if err != "" {
-			problems = append(problems, fmt.Sprintf("%q is accepted and renders as %q, which is %s", f, rendered, err))
+		// the rendering is parsed in the state the first parse left behind (scratch buffers handed back to a pool,
+		// caches): a parser keeps nothing from one call to the next, and the first result stays what it was
+		st1.Status = stRun
+		st1.Frames = nil
+		st1.push(parse, []Val{rendered}, nil)
+		out = m.Run(st1)
+		if len(out) != 1 || out[0].Status != stRet {
+			problems = append(problems, "undecided: parsing the rendering "+retDesc(out))
+			break
+		}
+		tv2 := st1.Ret.(*TupleV)
+		if _, ok := tv2.E[1].(nilV); !ok {
+			problems = append(problems, fmt.Sprintf("%q is accepted and renders as %q, which is rejected", f, rendered))
 			continue
 		}
+		st2, d2 := st1, tv2.E[0]
 		b := dumpDep(p, st2, d2)
 		if a != b {
-			problems = append(problems, fmt.Sprintf("%q parses to %s, renders as %q, which parses to %s", f, a, rendered, b))
+			problems = append(problems, fmt.Sprintf("%q parses to %s, renders as %q, which (parsed next) parses to %s", f, a, rendered, b))
+		}
+		if again := dumpDep(p, st1, d1); again != a {
+			problems = append(problems, fmt.Sprintf("the value parsed from %q changes when the next field is parsed: %s became %s", f, a, again))
 		}
 	}
 	rp.Extra["fixpoint_fields"] = n
